@@ -49,6 +49,8 @@ def run(repo, rep):
     rule_round10_geometry(repo, rep)
     rep.clause("C02-z", "accesses to a rolling buffer wrap at the buffer's own storage shape (the storage shape of addresses_for_rolling_buffer depends on is_standard_fm)")
     rule_rolling_buffer_tiles(repo, rep)
+    rep.clause("C02-ab", "a LUT DMA stays inside the SHRAM LUT area: the table is placed on a multiple of its own storage size (step argument of find_best_address)")
+    rule_lut_placement_step(repo, rep)
     rep.clause("C02-aa", "the region index of a memory type is computed for the architecture at hand: the command modules keep no process-wide memo [rule shared with C14-a / C06-v]")
     from . import c14 as _c14aa
 
@@ -1216,3 +1218,24 @@ def rule_rolling_buffer_tiles(repo, rep):
         raise AnalysisError(f"Tensor: {n_use} uses of get_4D_storage_shape_for_shape")
     rep.check(ok, "C02-z", site, "tile crossings of a rolling buffer use the buffer's own storage shape; only a standard feature map uses the shape derived from the operator's",
               f"definitions {by_cond}: a rolling buffer is addressed with the operator's (larger) shape - no access wraps at the end of the buffer, the rows behind it are read and written")
+
+
+def rule_lut_placement_step(repo, rep):
+    """(ab) a LUT is placed inside the SHRAM LUT area at an address that is a multiple of its own size: find_best_address(start, stop, step)
+    walks `range(start, stop, step)` and tests `[addr, addr + step)`, so every candidate plus the LUT's size stays below `stop` only if the
+    step is the LUT's storage size (the area is a multiple of every LUT size). The step argument of the call in
+    optimize_high_level_cmd_stream is `<lut>.storage_size()` of the tensor that receives the address."""
+    lm = repo.mod("lut")
+    fn = lm.func("optimize_high_level_cmd_stream")
+    site = "ethosu/vela/lut.py:optimize_high_level_cmd_stream"
+    calls = [st for st in ast.walk(fn) if isinstance(st, ast.Assign) and isinstance(st.value, ast.Call) and str(norm(st.value.func)).endswith(".find_best_address")]
+    if len(calls) != 1 or len(calls[0].value.args) != 3:
+        raise AnalysisError("optimize_high_level_cmd_stream: find_best_address call not found")
+    addr_var = str(norm(calls[0].targets[0]))
+    recv = [str(norm(st.targets[0].value)) for st in ast.walk(fn) if isinstance(st, ast.Assign) and isinstance(st.targets[0], ast.Attribute) and st.targets[0].attr == "address" and str(norm(st.value)) == addr_var]
+    step = str(norm(calls[0].value.args[2]))
+    ok = len(recv) == 1 and step == f"{recv[0]}.storage_size()"
+    rep.check(ok, "C02-ab", site, f"the LUT is placed on a multiple of its own size: step `{step}`", f"step `{step}` is not the storage size of `{recv}`: a 2 KiB table can be placed 1 KiB below the end of the 2 KiB LUT area - its DMA writes 1 KiB beyond the SHRAM")
+    fb = lm.func("LUTState.find_best_address")
+    loops = [lp for lp in ast.walk(fb) if isinstance(lp, ast.For) and str(norm(lp.iter)) == "range(start, stop, step)"]
+    rep.check(len(loops) == 1, "C02-ab", "ethosu/vela/lut.py:LUTState.find_best_address", "candidates are start, start + step, .. below stop", "candidate loop not recognised")
